@@ -52,3 +52,25 @@ void v_hcc_search(LZ4_streamHC_t* s, const unsigned char* prefix, int ipOff, int
 }
 unsigned v_hcc_dict_limit(const LZ4_streamHC_t* s) { return s->internal_donotuse.dictLimit; }
 unsigned v_hcc_low_limit(const LZ4_streamHC_t* s) { return s->internal_donotuse.lowLimit; }
+
+/* ---- dictCtx search: `dict` prepared by LZ4_loadDictHC at dictLevel and attached to a fresh working stream anchored at
+   `prefix` (LZ4HC_init_internal), then LZ4HC_InsertAndGetWiderMatch with dict == usingDictCtxHc ---- */
+void v_hcc_dict_init(LZ4_streamHC_t* work, LZ4_streamHC_t* dict, const char* dictbuf, int dictSize, int dictLevel,
+                     const unsigned char* prefix, int level)
+{
+    LZ4_initStreamHC(dict, sizeof(*dict));
+    LZ4_setCompressionLevel(dict, dictLevel);
+    LZ4_loadDictHC(dict, dictbuf, dictSize);
+    LZ4_initStreamHC(work, sizeof(*work));
+    LZ4_setCompressionLevel(work, level);
+    LZ4HC_init_internal(&work->internal_donotuse, prefix);
+    LZ4_attach_HC_dictionary(work, dict);
+}
+void v_hcc_search_dict(LZ4_streamHC_t* s, const unsigned char* prefix, int ipOff, int lowOff, int highOff, int longest,
+                  int nbAttempts, int patternAnalysis, int chainSwap, int favorDecSpeed, int* res)
+{
+    LZ4HC_match_t const m = LZ4HC_InsertAndGetWiderMatch(&s->internal_donotuse, prefix + ipOff, prefix + lowOff, prefix + highOff,
+                                longest, nbAttempts, patternAnalysis, chainSwap, usingDictCtxHc,
+                                favorDecSpeed ? favorDecompressionSpeed : favorCompressionRatio);
+    res[0] = m.off; res[1] = m.len; res[2] = m.back;
+}
